@@ -62,6 +62,9 @@ def parseMsg (s : String) : Option Msg :=
     let role : Option (Bool × Nat) := match look l "role" with
       | some "c" => some (true, lookNat l "tb" 0)
       | some "d" => some (false, lookNat l "tb" 0)
+      -- both role attributes present: `AttrControl.GetFrom` looks for ICE-CONTROLLING first (tb), whatever the order
+      | some "cd" => some (true, lookNat l "tb" 0)
+      | some "dc" => some (true, lookNat l "tb" 0)
       | _ => none
     some { cls := lookNat l "cls" 0, method := lookNat l "m" 1, tid := tid,
            user := (look l "user").bind fun v => if v == "-" then none else some (":".intercalate ((v.splitOn ":").map tok)),
